@@ -442,6 +442,8 @@ type obsStore struct {
 	onPanic func(msg string)
 	// failAncestor, when it returns true, makes this AncestorTimestamp call report "not found"
 	failAncestor func() bool
+	// onCall announces the start (done=false) and the end of a Store.AddState / Store.AddBlock call
+	onCall func(name string, done bool)
 }
 
 func (o *obsStore) panicked(apply bool, s consensus.State, id types.BlockID, p any) {
@@ -451,6 +453,23 @@ func (o *obsStore) panicked(apply bool, s consensus.State, id types.BlockID, p a
 	}
 	o.after(apply, s, id, nil, true)
 	panic(p)
+}
+
+// AddState / AddBlock are announced (C03 checks that no commit reaches the database inside them).
+func (o *obsStore) AddState(cs consensus.State) {
+	if o.onCall != nil {
+		o.onCall("AddState", false)
+		defer o.onCall("AddState", true)
+	}
+	o.Store.AddState(cs)
+}
+
+func (o *obsStore) AddBlock(b types.Block, bs *consensus.V1BlockSupplement) {
+	if o.onCall != nil {
+		o.onCall("AddBlock", false)
+		defer o.onCall("AddBlock", true)
+	}
+	o.Store.AddBlock(b, bs)
 }
 
 // AncestorTimestamp can be made to fail once (a dependency failing in the middle of a reorg).
@@ -507,7 +526,8 @@ type Rig struct {
 	// makes after a store operation of the current submission (i.e. inside applyTip, mid-reorg)
 	FailAncestor    bool
 	AncestorFailed  int
-	ExpectedPanic   string // a panic whose text contains this is the designed answer to an injected failure
+	OnCall          func(name string, done bool) // start / end of the manager's Store.AddState and Store.AddBlock calls
+	ExpectedPanic   string                       // a panic whose text contains this is the designed answer to an injected failure
 	opsInSubmission int
 	V2Batches       int // batches submitted through AddValidatedV2Blocks
 	// intermediate-tip supplement probes: after a store operation that leaves the tip at a height h
@@ -565,6 +585,11 @@ func NewRigWith(c *vh.Case, t *chainx.Tree, ids *IDs, decls map[int]*Decl, db ch
 		inner = r.Probe
 	}
 	os := &obsStore{Store: inner, ids: ids, before: r.before, after: r.after, onPanic: func(m string) { r.PanicMsg = firstLine(m) },
+		onCall: func(name string, done bool) {
+			if r.OnCall != nil {
+				r.OnCall(name, done)
+			}
+		},
 		failAncestor: func() bool {
 			// only in the middle of a reorg: after at least one ApplyBlock/RevertBlock of this submission
 			if !r.FailAncestor || r.opsInSubmission == 0 {
